@@ -33,7 +33,7 @@ ASSUMPTIONS = [
     "x86-64 ELF only",
 ]
 BOUNDS = {"quick": {"set_size": 2, "fault_kinds": 3}, "thorough": {"set_size": 2, "fault_kinds": 3, "families": "all shapes"}}
-CAP_S = {"quick": 170, "thorough": 2400}
+CAP_S = {"quick": 400, "thorough": 2400}
 
 FAULTS = ("raise", "syntax", "undef")
 
